@@ -65,6 +65,40 @@ def run_simsub(spec, rec, dadi, LP):
     func, params = dadi.Demographics1D.two_epoch, [2.0, 0.1]
     for ci in range(spec["n"]):
         rng = rng_for(spec["seed"], "C18simsub", ci)
+        if ci % 2 == 1:
+            # two populations, fewer individuals kept than sequenced in the FIRST one (and sometimes in the second)
+            f2, par2 = dadi.Demographics2D.split_mig, [1.5, 0.7, 0.3, 1.0]
+            nseq2 = [int(rng.choice([6, 8])), int(rng.choice([4, 6]))]
+            nsub2 = [int(rng.choice(range(2, nseq2[0], 2))), int(rng.choice([nseq2[1], nseq2[1] - 2]))]
+            nsim = 1000
+            pops = ["pop0", "pop1"]
+            cds2 = {p_: covdist(rng, "deep")[0] for p_ in pops}
+            if not rec.case("simsub-%d" % ci, {"nseq": nseq2, "nsub": nsub2, "nsim": nsim}, nontrivial=True):
+                continue
+            tags = {"nseq": nseq2, "nsub": nsub2, "npop": 2}
+            site = "LowPass.make_low_pass_func_GATK_multisample"
+            np.random.seed(int(rng.integers(2 ** 31)))
+            ok, lf = rec.noraise("lowpass-returns", lambda: LP.make_low_pass_func_GATK_multisample(f2, cds2, pops, nseq=nseq2, nsub=nsub2, sim_threshold=0.0, Fx=None, nsim=nsim),
+                                 site=site, tags=tags)
+            if not ok:
+                continue
+            ok, m = rec.noraise("lowpass-returns", lambda: lf(par2, nsub2, 16), site=site, tags=tags)
+            if not ok:
+                continue
+            full = f2(par2, nseq2, 16)
+            plain = np.asarray(full.project(nsub2).data)
+            got = np.asarray(m.data, float)
+            W0, W1 = gen.hyper_matrix(nseq2[0], nsub2[0]), gen.hyper_matrix(nseq2[1], nsub2[1])      # [target, source]
+            mod = np.where(np.asarray(full.mask), 0.0, np.asarray(full.data))
+            P = np.einsum("ai,bj->abij", W0, W1)
+            se = np.sqrt(np.einsum("abij,ij->ab", P * (1 - P), mod ** 2) / nsim)
+            inner = np.ones(got.shape, bool)
+            inner.flat[0] = inner.flat[-1] = False
+            with np.errstate(all="ignore"):
+                zz_ = np.abs(got - plain) / np.maximum(se, 1e-12 * np.max(plain[inner]))
+            z = float(np.max(zz_[inner])) if np.all(np.isfinite(got[inner])) else float("inf")
+            rec.close("simulated-subsampling-unbiased", z, 6.0, site=site, tags=tags, observed={"max_z": z})
+            continue
         nseq = int(rng.choice([8, 10, 12]))
         nsub = int(rng.choice(range(2, nseq, 2)))
         nsim = 1000
